@@ -244,7 +244,7 @@ func runBinary(bin, dir string, env []string, args ...string) (stdout, stderr []
 
 // binTimeout bounds one run of a real binary; a binary that does not exit is reported with
 // code -2 (the property promises an answer under every GOMAXPROCS).
-var binTimeout = 30 * time.Second
+var binTimeout = 15 * time.Second
 
 // binHangs counts timeouts; once a hang is established the remaining runs get a short leash.
 var binHangs int
